@@ -349,12 +349,16 @@ Lemma boolop_merge_nw : forall c V o,
 Proof.
   induction c; intros V o Hm; simpl in *; try (left; exact Hm).
   - apply IHc. exact Hm.
-  - rewrite bmember_app in Hm. apply orb_true_iff in Hm. destruct Hm as [Hm|Hm]; [left; exact Hm|].
-    destruct (cond_nw c1) as [H1 _]. unfold narrow, constrain in Hm.
-    destruct (apply_all_nw _ _ o H1 V Hm) as [H|H]; [left; exact H|right; apply bmember_app_l; exact H].
-  - rewrite bmember_app in Hm. apply orb_true_iff in Hm. destruct Hm as [Hm|Hm]; [left; exact Hm|].
-    destruct (cond_nw c1) as [_ H2]. unfold narrow, constrain in Hm.
-    destruct (apply_all_nw _ _ o H2 V Hm) as [H|H]; [left; exact H|right; apply bmember_app_l; exact H].
+  - rewrite bmember_app in Hm. apply orb_true_iff in Hm. destruct Hm as [Hm|Hm].
+    + destruct (IHc1 V o Hm) as [H|H]; [left; exact H|right; apply bmember_app_l; exact H].
+    + destruct (IHc2 _ o Hm) as [H|H]; [|right; apply bmember_app_r; exact H].
+      destruct (cond_nw c1) as [H1 _]. unfold narrow, constrain in H.
+      destruct (apply_all_nw _ _ o H1 V H) as [H'|H']; [left; exact H'|right; apply bmember_app_l; exact H'].
+  - rewrite bmember_app in Hm. apply orb_true_iff in Hm. destruct Hm as [Hm|Hm].
+    + destruct (IHc1 V o Hm) as [H|H]; [left; exact H|right; apply bmember_app_l; exact H].
+    + destruct (IHc2 _ o Hm) as [H|H]; [|right; apply bmember_app_r; exact H].
+      destruct (cond_nw c1) as [_ H2]. unfold narrow, constrain in H.
+      destruct (apply_all_nw _ _ o H2 V H) as [H'|H']; [left; exact H'|right; apply bmember_app_l; exact H'].
 Qed.
 
 Theorem narrow_e2e_no_widening : forall V c pol o,
